@@ -134,6 +134,44 @@ def prepare_query(bld, q):
 
 
 def run_query(bld, q, trace=False, only_property=None):
+    """Runs the query; when the ONLY thing standing between the run and a verdict is a failed
+    unwinding assertion, the bound of exactly those loops is widened (doubled, at least +16) and the
+    query is repeated - the bound stays checked by --unwinding-assertions, it is just found by
+    search instead of being fixed by hand.  This is what keeps a change that adds or lengthens a
+    loop from ending as "no verdict".  The widened bounds are reported in the result."""
+    widened = {}
+    t00 = time.time()
+    res = None
+    for attempt in range(5):
+        res = _run_query_once(bld, q, trace=trace, only_property=only_property)
+        if res.get('status') != 'inconclusive' or only_property:
+            break
+        inc = res.get('inconclusive') or []
+        unw = [p for p in inc if 'unwinding assertion' in (p.get('desc') or '')]
+        if not unw or len(unw) != len(inc):
+            break
+        changed = False
+        for p_ in unw:
+            m = re.match(r'(.+)\.unwind\.(\d+)$', p_.get('id') or '')
+            if not m:
+                continue
+            loop = '%s.%s' % (m.group(1), m.group(2))
+            cur = q.unwindset.get(loop, q.unwind or 1)
+            new = min(max(2 * cur, cur + 16), 1200)
+            if new > cur:
+                q.unwindset[loop] = new
+                widened[loop] = new
+                changed = True
+        if not changed:
+            break
+    if widened:
+        res['unwind_widened'] = widened
+        res['bounds'] = dict(res.get('bounds') or {}, **{'unwind bounds widened at run time': widened})
+        res['wall_s'] = time.time() - t00
+    return res
+
+
+def _run_query_once(bld, q, trace=False, only_property=None):
     t0 = time.time()
     res = {'name': q.name, 'desc': q.desc, 'bounds': q.bounds, 'status': None, 'props': [], 'wall_s': 0.0,
            'cmd': '', 'solver': q.solver}
